@@ -145,12 +145,30 @@ class Ctx:
         If the tool cannot run here, that is recorded and the check goes on."""
         d = self.specdir()
         outdir = os.path.join(self.tmp, "apalache-out-%s" % module.replace(".tla", ""))
+        logf = os.path.join(self.tmp, "apalache-%s.log" % module.replace(".tla", ""))
         try:
-            p = subprocess.run(["apalache-mc", "check", "--inv=" + inv, "--length=1", "--out-dir=" + outdir, module], cwd=d,
-                               stdout=subprocess.PIPE, stderr=subprocess.STDOUT, text=True, timeout=timeout)
+            # own process group, output to a file: on a timeout the whole group (wrapper script + JVM) is killed and
+            # nothing can keep a pipe open
+            with open(logf, "w") as lf:
+                proc = subprocess.Popen(["apalache-mc", "check", "--inv=" + inv, "--length=1", "--out-dir=" + outdir, module], cwd=d,
+                                        stdout=lf, stderr=subprocess.STDOUT, stdin=subprocess.DEVNULL, start_new_session=True)
+                try:
+                    proc.wait(timeout=timeout)
+                except subprocess.TimeoutExpired:
+                    import signal
+                    try:
+                        os.killpg(proc.pid, signal.SIGKILL)
+                    except OSError:
+                        pass
+                    proc.wait(timeout=30)
+                    raise
         except (OSError, subprocess.TimeoutExpired) as e:
             self.cov.setdefault("apalache", []).append(dict(module=module, inv=inv, result="skipped: %s" % type(e).__name__))
             return None
+
+        class _P:
+            stdout = open(logf, errors="replace").read()
+        p = _P
         ok = "The outcome is: NoError" in p.stdout
         if "The outcome is: Error" in p.stdout:
             raise Infra("Apalache refutes %s!%s (specification library inconsistent): %s" % (module, inv, p.stdout[-600:]))
